@@ -624,6 +624,41 @@ def targeted_worker(job):
                     sig = "panic-writing-diagnostic-to-unwritable-stderr" if (due and rc == 101 and not to) else None
                     st.violate("binary-panic-or-hang", sig, {"args": argv, "stderr": "/dev/full", "diagnostic_due": due, "rc": rc, "timeout": to},
                                {"args": argv, "stderr": "/dev/full", "via": "binary"})
+        # the environment the time primaries read: time zones whose clocks change at local midnight today (a local midnight that
+        # does not exist, or exists twice), far-off offsets, unusable TZ values - with -daystart, ages, dates without a zone, %T
+        if k in (9, 10, 11):
+            if os.path.exists(sb):
+                common.force_rmtree(sb)
+            os.makedirs(sb)
+            build_fuzz_tree(sb)
+            import time as time_
+            yd = time_.gmtime().tm_yday - 1
+            zones = []
+            for off in (0, -13, 11, 5, -9):
+                for d0 in (yd - 1, yd, yd + 1):
+                    d0 %= 365
+                    zones += ["VST%dVDT,%d/0,%d/0" % (off, d0, (d0 + 100) % 365), "VST%dVDT,%d/0,%d/0" % (off, (d0 + 265) % 365, d0),
+                              "VST%dVDT,%d/0:30,%d/23:59:59" % (off, d0, (d0 + 1) % 365)]
+            zones += ["Europe/Berlin", "America/St_Johns", "Pacific/Apia", "Australia/Lord_Howe", ":bogus", "", "XXX", "<+0330>-3:30", "UTC0", "A", "VST0VDT,0/0",
+                      "VST0VDT,J1,J1", "VST25", "VST-25VDT", ":/dev/null", ":/etc/passwd", "/", "VST0VDT,M3.5.0/2,M10.5.0/3", "VST0VDT,M13.9.9"]
+            tests = [["-daystart", "-mtime", "0"], ["-daystart", "-mmin", "+5", "-o", "-amin", "-1000000"], ["-daystart", "-ctime", "-1", "-daystart", "-atime", "+0"],
+                     ["-newermt", "2026-03-29T02:30:00"], ["-newermt", "2026-10-25 02:30:00"], ["-newermt", "today"], ["-newermt", "yesterday"],
+                     ["-newerat", "tomorrow"], ["-mtime", "0", "-printf", "%Tc|%T+|%TZ|%Tz|%T@|%Tx|%TX|%Ac|%Cc|%t\n"], ["-ls"],
+                     ["-daystart", "-newermt", "00:00"], ["-used", "0"], ["-daystart", "-used", "+1"]]
+            for zi, tz in enumerate(zones):
+                if zi % 3 != k - 9:
+                    continue
+                for targs in tests:
+                    argv = ["r"] + targs
+                    rc, out, err, to = common.run_cmd([common.FIND] + argv, cwd=sb, env=common.clean_env({"TZ": tz}), timeout=60,
+                                                      preexec_fn=common.drop_to(NOBODY))
+                    st.inc("evaluations")
+                    st.inc("binary_runs")
+                    st.inc("runs_under_unusual_time_zones")
+                    st.add("time_zones", tz)
+                    if to or rc in (101, 134, -6, -11, -4, -7, -8):
+                        st.violate("binary-panic-or-hang", None, {"args": argv, "TZ": tz, "rc": rc, "timeout": to, "stderr": err[-400:]},
+                                   {"args": argv, "TZ": tz, "via": "binary", "day_of_year": yd})
         # non-UTF-8 arguments (binary only: the library takes &str)
         if k < 4:
             if os.path.exists(sb):
